@@ -107,9 +107,16 @@ def make_runner(case, inc, pid, wd, ext, fault, seen, clock):
             super().__init__(read_command_line_args=False)
             self.rep_max = f_real(case["repmax"])
             self.update_progress_function_style = None
-            self.params.add("p", list(range(1, nv + 1)))
+            if nv == 1 and case.get("nounpack"):
+                self.params.add("p", 1)                      # a simulation WITHOUT unpacked parameters (one combination)
+            else:
+                self.params.add("p", list(range(1, nv + 1)))
+                self.params.set_unpack_parameter("p")
             self.params.add("noise", 1e-9 if pid == 1 else 4e-9)     # a tiny change of a fixed parameter
-            self.params.set_unpack_parameter("p")
+            if case.get("progress_file"):
+                # progress written to files next to the results (a crash leaves such a file behind)
+                self.update_progress_function_style = "text2"
+                self.progress_output_type = "file"
             self.delete_partial_results_bool = bool(case["delete"])
             self.set_results_filename(os.path.join(wd, "res" + ext))
             self.known = {}
@@ -222,12 +229,15 @@ def run_case(job):
                 else:
                     def match(n, t=target):
                         import re
-                        m = re.search(r"_unpack_(\d+)\.", os.path.basename(n))
-                        return bool(m) and int(m.group(1)) == t - 1
+                        m = re.search(r"_unpack_(-?\d+)\.", os.path.basename(n))
+                        # (a simulation without unpacked parameters numbers its only combination -1)
+                        return bool(m) and (int(m.group(1)) == t - 1 or (nv == 1 and int(m.group(1)) == -1))
                 resmod.open = FaultyOpen(match, fault["skip"], fault["mode"])
             if fault and fault["kind"] == "remove" and case["delete"]:
-                def bad_remove(*a, **k):
-                    raise Crash()
+                def bad_remove(path, *a, **k):
+                    if "_unpack_" in os.path.basename(str(path)):      # the deletion of the partial-results files
+                        raise Crash()
+                    return real_remove(path, *a, **k)
                 os.remove = bad_remove
             try:
                 try:
@@ -324,7 +334,7 @@ def run(ctx):
                         "half of the histories restart the SAME runner object (interrupted in-process), the other half a new object"]
     thorough = ctx.tier == "thorough"
     # (nv, repmax(model), maxinc, delete, mismatch, sample)
-    cfgs = [(2, 2, 2, True, True, None), (2, 3, 2, False, True, None), (2, 4, 2, True, True, None), (1, 7, 2, True, False, None),
+    cfgs = [(2, 2, 2, True, True, None), (2, 3, 2, False, True, None), (2, 4, 2, True, True, None), (1, 7, 2, True, True, None),
             (2, 4, 3, True, False, 250 if not thorough else 3000), (2, 7, 2, False, True, None if thorough else 120),
             (11, 2, 2, True, False, 60 if not thorough else 600)]      # two-digit variation indexes in the partial file names
     if thorough:
@@ -343,6 +353,11 @@ def run(ctx):
             cases = rng.sample(cases, c[5])
         # same-object restarts only where no timer point exists: after a save that crashed, the five-minute timer of a live
         # object stays expired and fires again at the next opportunity - correct, but outside the TimerAt abstraction
+        for i, cs in enumerate(cases):
+            if c[0] == 1 and i % 2 == 0:
+                cs["nounpack"] = True
+            if i % 5 == 3:
+                cs["progress_file"] = True
         jobs = [(cs, (".pickle", ".json", "")[i % 3], (i // 3) % 2 == 1 and not timers_of(c[0], c[1])) for i, cs in enumerate(cases)]
         res = pool_map(run_case, jobs, chunksize=max(1, len(jobs) // 64))
         for (cs, ext, reuse), (d, fid) in zip(jobs, res):
